@@ -210,7 +210,12 @@ def analysable(src):
 def compare(ol, srcs_cfgs):
     """yields (src, cfg, agree: bool, detail); programs CPython's parser / symtable pass refuse are
     outside the model's domain (the real entry point raises before `convert` is reached) and are skipped"""
-    srcs_cfgs = [(s, c) for s, c in srcs_cfgs if analysable(s)]
+    all_pairs = [(s, c) for s, c in srcs_cfgs if analysable(s)]
+    for lo in range(0, len(all_pairs), 800):          # bounded batches: the requests of a thorough run do not fit in memory at once
+        yield from _compare_batch(ol, all_pairs[lo:lo + 800])
+
+
+def _compare_batch(ol, srcs_cfgs):
     models = model_convert(srcs_cfgs)
     for (src, cfg), m in zip(srcs_cfgs, models):
         r = real_convert(ol, src, cfg)
